@@ -3,3 +3,10 @@
 (define-fun circleIndex ((l Int) (a Int) (minor Bool)) Int (mod (* 7 (- (keySemi l a) (ite minor 9 0))) 12))
 ; number of sharps minus number of flats of a key's scale
 (define-fun signature ((l Int) (a Int) (minor Bool)) Int (- (countAcc l a minor 1) (countAcc l a minor (- 1))))
+; ---- chains of conversions (C14): mode and tonic offset after the first n conversions of a chain ----
+(define-fun convFlips ((x Int)) Bool (or (= x 1) (= x 2)))
+(define-fun convShift ((x Int) (minor Bool)) Int (ite (= x 3) 7 (ite (= x 4) 5 (ite (= x 1) 0 (ite minor 3 9)))))
+(define-fun-rec chainMinor ((a (Array Int Int)) (off Int) (n Int) (m0 Bool)) Bool
+  (ite (<= n 0) m0 (not (= (chainMinor a off (- n 1) m0) (convFlips (select a (+ off (- n 1))))))))
+(define-fun-rec chainSemi ((a (Array Int Int)) (off Int) (n Int) (m0 Bool)) Int
+  (ite (<= n 0) 0 (+ (chainSemi a off (- n 1) m0) (convShift (select a (+ off (- n 1))) (chainMinor a off (- n 1) m0)))))
